@@ -77,6 +77,13 @@ def harnesses(tier):
                        nobody_ok='*', unwind=8, object_bits=10, timeout=900, mem_gb=6, replay=False,
                        bounds='fenced block of 1..3 lines of arbitrary kinds (1..3 bytes each), info string absent / arbitrary 5 bytes / raw filter, filter matching or not',
                        desc='%s, case BLOCK_CODE_FENCED: no missing line dereferenced, raw copy inside the block' % fn))
+    for nm, unit, fn, tree in (('latex', 'repo:latex.c', 'mmd_export_image_latex', 'mmd_export_token_tree_latex'), ('opendocument', 'repo:opendocument-content.c', 'mmd_export_image_opendocument', 'mmd_export_token_tree_opendocument')):
+        for vl in ((1, 2, 3) if tier == 'quick' else (1, 2, 3, 4, 5)):
+            hs.append(dict(name='c01_image_dims_%s_%d' % (nm, vl), src='c01/imgdims.c', defs=dict(EXPORT_IMAGE=fn, TREE1=tree, VL=vl), pool_off=True,
+                           units=[dict(src=unit, cflags=['-include', 'vh_libc.h'], remove=[tree]), 'repo:token.c', 'repo:object_pool.c', 'repo:char.c', 'common/ds_null.c'],
+                           nobody_ok='*', unwind=12, object_bits=10, timeout=600, mem_gb=6, replay=False,
+                           bounds='width / height / other attribute whose value is any %d non-NUL bytes, figure or inline' % vl,
+                           desc='%s + correct_dimension_units: the private copy of the attribute value is read and written only inside its block' % fn))
     hs.append(dict(name='c01_source_copy', src='c19/newsize.c', unwind=8, timeout=600, mem_gb=6, functional=True, replay=False,
                    bounds='every source length 0..8190 (symbolic)',
                    desc='d_string_new (the private copy every string entry point makes of the caller\'s text): the buffer has room for the text and its terminator at every power-of-two length'))
